@@ -15,19 +15,30 @@ From Verif Require Import Base.KV Locks.Interleave Locks.LockLog Locks.EtcdLock 
 Theorem C19_etcd_notify : forall s i c,
   reachable step sys_init s ->
   nth_error (s_cs s) i = Some c -> c_pc c = Held ->
-  e_lease_live (s_kv s) (c_lease c) = false -> c_ctx c = CtxLive ->
+  e_lease_live (s_kv s) (c_lease c) = false -> ctx_view c <> CtxSessionDone ->
   exists s' c', run step s (notify_steps i c) = Some s' /\
-                nth_error (s_cs s') i = Some c' /\ c_ctx c' = CtxSessionDone /\ c_pc c' = Held.
+                nth_error (s_cs s') i = Some c' /\ ctx_view c' = CtxSessionDone /\ c_pc c' = Held.
 Proof. exact etcd_notify. Qed.
 Print Assumptions C19_etcd_notify.
+
+(* ordering obligation on the watcher: setting the error and closing Done() are
+   not preceded by (and do not contain) any call to the store, so they cannot
+   block when etcd is unreachable *)
+Theorem C19_etcd_cancel_needs_no_store : forall s kv' i l,
+  l = LWatch i \/ l = LCancel i ->
+  step (mkSys kv' (s_cs s)) l =
+  match step s l with Some s' => Some (mkSys kv' (s_cs s')) | None => None end /\
+  (forall s', step s l = Some s' -> s_kv s' = s_kv s).
+Proof. exact etcd_watch_cancel_store_free. Qed.
+Print Assumptions C19_etcd_cancel_needs_no_store.
 
 Theorem C19_etcd_overlap_bound : forall s i j a b,
   reachable step sys_init s ->
   nth_error (s_cs s) i = Some a -> nth_error (s_cs s) j = Some b -> i <> j ->
-  c_pc a = Held -> c_ctx a = CtxLive -> holds s b = true ->
-  e_lease_live (s_kv s) (c_lease a) = false /\ c_w a = WWatching /\
+  c_pc a = Held -> ctx_view a <> CtxSessionDone -> holds s b = true ->
+  e_lease_live (s_kv s) (c_lease a) = false /\ (c_w a = WWatching \/ c_w a = WCancelling) /\
   (exists s' a', run step s (notify_steps i a) = Some s' /\
-                 nth_error (s_cs s') i = Some a' /\ c_ctx a' = CtxSessionDone).
+                 nth_error (s_cs s') i = Some a' /\ ctx_view a' = CtxSessionDone).
 Proof. exact etcd_overlap_bound. Qed.
 Print Assumptions C19_etcd_overlap_bound.
 
